@@ -270,10 +270,15 @@ def run(tier, seed, replay=None):
         except Exception:
             continue
 
+        with_inverse = hrng.random() < 0.4      # (a call of the inverse replaces whatever the transform object
+                                                #  remembers of its last forward call: observe with and without)
+
         def obs(o):
             nhs = o.node_heights.detach()
-            return [nhs.tolist(), o.branch_lengths().detach().tolist(),
-                    o.transform.inv(nhs[..., c["n"]:]).detach().tolist()]
+            out = [nhs.tolist(), o.branch_lengths().detach().tolist()]
+            if with_inverse:
+                out.append(o.transform.inv(nhs[..., c["n"]:]).detach().tolist())
+            return out
         fs = H.run(tm, obs, hrng, steps=2, reads=[("node_heights", lambda o: o.node_heights),
                                                   ("branch_lengths", lambda o: o.branch_lengths()),
                                                   ("call", lambda o: o())])
